@@ -51,6 +51,7 @@ Definition skip_rule_ok (g : ogrammar) (o : option N) : bool :=
       | Some d =>
           match o_kind d with
           | KAtomic | KCompound => true          (* declared atomic: already SKIP = 0 *)
+          | KNonAtomic => flat (o_expr d)        (* `!` switches skipping ON inside the skip rule itself *)
           | _ => flat (o_expr d) || negb (existsb (fun d' => mentions r (o_expr d')) (g_rules g))
           end
       end
